@@ -624,6 +624,23 @@ sadump_read_page(struct page_io *pio)
 static kdump_status
 sadump_get_page(struct page_io *pio)
 {
+	kdump_ctx_t *ctx = pio->ctx;
+
+	/* The cache may hold zeroes for an excluded page from the time
+	 * when file.zero_excluded was set, so check before the lookup.
+	 */
+	if (!get_zero_excluded(ctx)) {
+		struct sadump_priv *sp = ctx->shared->fmtdata;
+		kdump_pfn_t pfn = pio->addr.addr >> get_page_shift(ctx);
+		const struct pfn_region *rgn;
+
+		if (pfn < get_max_pfn(ctx) &&
+		    (!(rgn = find_pfn_region(&sp->pfm, pfn)) ||
+		     pfn < rgn->pfn))
+			return set_error(ctx, KDUMP_ERR_NODATA,
+					 "Excluded page");
+	}
+
 	return cache_get_page(pio, sadump_read_page);
 }
 
